@@ -21,7 +21,9 @@ CONSTANTS MaxJobs,        \* --jobs ranges over 1..MaxJobs
           StopModes,      \* subset of BOOLEAN: --stop-early
           ExitCodes,      \* e.g. {0, 1}
           LaunchFail,     \* BOOLEAN: fork may fail
-          SecondReaper    \* BOOLEAN: the Popen object is dropped, so __del__/_cleanup poll waitpid(pid)
+          SecondReaper,   \* BOOLEAN: the Popen object is dropped, so __del__/_cleanup poll waitpid(pid)
+          AllowAbort      \* BOOLEAN: SIGINT/SIGTERM may arrive (once) at any step; start_execution is then modelled in
+                          \* finer steps (child forked / Popen bound / handle returned / registered)
 
 RO == INSTANCE RunObs
 
@@ -41,10 +43,11 @@ VARIABLES gr,        \* the task graph (Planner.tla record) with par flags
           sigPending, pipe, rcs,   \* pending SIGCHLD, bytes in the self-pipe, SigchldHelper._returncodes
           active,    \* subprocess._active
           slotOf, recorded, launchFailed,
+          abortPc,   \* "" or the pc at which the interrupt arrived
           m          \* RunObs monitor state
 
 vars == <<gr, pl, jobs, stop, pc, cur, curSlot, ost, waiting, readyP, readyS, inflP, inflS, slots, runPar,
-          completed, ndeq, proc, code, sigPending, pipe, rcs, active, slotOf, recorded, launchFailed, m>>
+          completed, ndeq, proc, code, sigPending, pipe, rcs, active, slotOf, recorded, launchFailed, abortPc, m>>
 
 Ops == 1..Len(pl.ops)
 TaskOf(o) == pl.ops[o].task
@@ -77,11 +80,11 @@ Init ==
     /\ runPar = FALSE /\ completed = <<>> /\ ndeq = 0
     /\ proc = [o \in Ops |-> "none"] /\ code = [o \in Ops |-> 0]
     /\ sigPending = FALSE /\ pipe = 0 /\ rcs = <<>> /\ active = {}
-    /\ slotOf = [o \in Ops |-> -1] /\ recorded = {} /\ launchFailed = {}
+    /\ slotOf = [o \in Ops |-> -1] /\ recorded = {} /\ launchFailed = {} /\ abortPc = ""
     /\ m = RO!MonInit
 
 Kern == <<proc, code, sigPending, pipe, rcs, active>>
-Conf == <<gr, pl, jobs, stop>>
+Conf == <<gr, pl, jobs, stop, abortPc>>
 
 Enq(rp, rs, o) == IF ParOp(o) THEN <<Append(rp, o), rs>> ELSE <<rp, Append(rs, o)>>
 RECURSIVE EnqAll(_, _, _)
@@ -158,9 +161,17 @@ ForkOK ==
     /\ pc = "fork"
     /\ proc' = [proc EXCEPT ![cur] = "running"]
     /\ m' = RO!OnSpawn(Cfg, m, TaskOf(cur), curSlot, pl.ops[cur].ver)
-    /\ pc' = IF SecondReaper THEN "del" ELSE "register"
+    /\ pc' = IF SecondReaper THEN "del" ELSE IF AllowAbort THEN "infork" ELSE "register"
     /\ UNCHANGED <<Conf, cur, curSlot, ost, waiting, readyP, readyS, inflP, inflS, slots, runPar, completed, ndeq,
                    code, sigPending, pipe, rcs, active, slotOf, recorded, launchFailed>>
+
+(* Popen.__init__ returns and `process` is bound; then start_execution returns the handle; only then add_op *)
+Stepping(from, to) ==
+    /\ pc = from /\ pc' = to
+    /\ UNCHANGED <<Conf, cur, curSlot, ost, waiting, readyP, readyS, inflP, inflS, slots, runPar, completed, ndeq, Kern,
+                   slotOf, recorded, launchFailed, m>>
+BindPopen == Stepping("infork", "bound")
+ReturnHandle == Stepping("bound", "register")
 
 (* OSError from Popen -> TaskFailed -> FAILED, _process_finished_op, "failed" line; stop-early returns True *)
 ForkFail ==
@@ -275,7 +286,7 @@ Hang ==
 (* Environment                                                             *)
 (***************************************************************************)
 ChildExit(p) ==
-    /\ proc[p] = "running" /\ pc \notin {"after_loop", "kill_exits", "report", "done"}
+    /\ proc[p] = "running" /\ pc \notin {"after_loop", "kill_exits", "report", "done", "abort_exits", "abort_report"}
     /\ \E c \in ExitCodes :
          /\ code' = [code EXCEPT ![p] = c]
          /\ m' = RO!OnExit(Cfg, m, TaskOf(p), c)
@@ -285,7 +296,7 @@ ChildExit(p) ==
 
 (* SigchldHelper._handler: reap ALL zombies with waitpid(-1, WNOHANG), one pipe byte per recorded exit *)
 Handler ==
-    /\ sigPending /\ pc \notin {"start", "after_loop", "kill_exits", "report", "done"}
+    /\ sigPending /\ pc \notin {"start", "after_loop", "kill_exits", "report", "done", "abort_exits", "abort_report"}
     /\ LET z == SortedSeq({p \in Ops : proc[p] = "zombie"}) IN
          /\ rcs' = rcs \o z /\ pipe' = pipe + Len(z)
          /\ proc' = [p \in Ops |-> IF proc[p] = "zombie" THEN "reaped" ELSE proc[p]]
@@ -293,10 +304,43 @@ Handler ==
     /\ UNCHANGED <<Conf, pc, cur, curSlot, ost, waiting, readyP, readyS, inflP, inflS, slots, runPar, completed, ndeq,
                    code, active, slotOf, recorded, launchFailed, m>>
 
+(***************************************************************************)
+(* SIGINT / SIGTERM (errors/signal.py raises ConductorAbort in the main    *)
+(* thread at a byte-code boundary).  Who reacts depends on where it lands: *)
+(*  - inside start_execution with `process` bound: that process is         *)
+(*    signalled by start_execution's own handler;                          *)
+(*  - everywhere: run_plan's handler signals the REGISTERED processes.     *)
+(* A child forked but not yet bound ("infork"), or bound and returned but  *)
+(* not yet registered (pc = "register"), is signalled by nobody.           *)
+(***************************************************************************)
+LiveOps == {p \in Ops : proc[p] \in {"running", "zombie"}}
+Abort ==
+    /\ AllowAbort /\ abortPc = "" /\ pc \notin {"done", "abort_exits", "abort_report", "kill_exits"}
+    /\ abortPc' = pc
+    /\ LET victims == {p \in (inflP \cup (IF pc = "bound" THEN {cur} ELSE {})) : proc[p] \in {"running", "zombie"}} IN
+         /\ m' = KillAll(victims, RO!OnAbort(Cfg, m, {TaskOf(p) : p \in LiveOps}))
+         /\ proc' = [p \in Ops |-> IF p \in victims /\ proc[p] = "running" THEN "zombie" ELSE proc[p]]
+         /\ code' = [p \in Ops |-> IF p \in victims /\ proc[p] = "running" THEN 1015 ELSE code[p]]
+    /\ pc' = "abort_exits"
+    /\ UNCHANGED <<gr, pl, jobs, stop, cur, curSlot, ost, waiting, readyP, readyS, inflP, inflS, slots, runPar, completed,
+                   ndeq, sigPending, pipe, rcs, active, slotOf, recorded, launchFailed>>
+AbortExits ==
+    /\ pc = "abort_exits"
+    /\ m' = ExitAll({p \in Ops : code[p] = 1015 /\ TaskOf(p) \in m.live}, m)
+    /\ pc' = "abort_report"
+    /\ UNCHANGED <<Conf, cur, curSlot, ost, waiting, readyP, readyS, inflP, inflS, slots, runPar, completed, ndeq,
+                   Kern, slotOf, recorded, launchFailed>>
+AbortReport ==     \* "Task aborted" banner, ConductorAbort -> cli_command -> ERROR, exit status 1
+    /\ pc = "abort_report"
+    /\ m' = RO!OnReturn(Cfg, m, 1, FALSE, "ERROR", {}, {}, recorded, TRUE)
+    /\ pc' = "done"
+    /\ UNCHANGED <<Conf, cur, curSlot, ost, waiting, readyP, readyS, inflP, inflS, slots, runPar, completed, ndeq,
+                   Kern, slotOf, recorded, launchFailed>>
+
 Main == Start \/ LoopTest \/ Launch \/ SyncStart \/ Cleanup \/ ForkOK \/ ForkFail \/ Del \/ Register \/ Wait
-        \/ Finish \/ AfterLoop \/ KillExits \/ Report \/ Hang
+        \/ Finish \/ AfterLoop \/ KillExits \/ Report \/ Hang \/ BindPopen \/ ReturnHandle \/ AbortExits \/ AbortReport
 Done == pc = "done" /\ UNCHANGED vars
-Next == Main \/ Done \/ Handler \/ \E p \in Ops : ChildExit(p)
+Next == Main \/ Done \/ Handler \/ Abort \/ \E p \in Ops : ChildExit(p)
 Spec == Init /\ [][Next]_vars /\ WF_vars(Main) /\ WF_vars(Handler) /\ \A p \in 1..N : WF_vars(p \in Ops /\ ChildExit(p))
 
 (***************************************************************************)
@@ -313,6 +357,12 @@ C03 == ViolIn({"SkipIffDependsOnFailure", "SkippedNeverStarted", "ExitZeroIffAll
                "NoInternalError"})
 C04 == ViolIn({"AtMostJobs", "SequentialAlone", "DistinctSlots", "SlotRange", "SlotIffParallel"})
 C09 == ViolIn({"TerminatesWhenAllExited", "OneOutcomeEach", "StatusBelongsToTask"})
+(* C16 holds in the design EXCEPT when the interrupt lands in one of the two windows in which a child exists that
+   nobody has a handle for yet (known findings K1, K2 in known_findings.json); K3 (finalizer) is a CPython matter *)
+KnownAbortWindows == {"infork", "register"}
+C16 == ViolIn({"AllLiveKilled", "AbortedNotInternal"}) \/ abortPc \in KnownAbortWindows
+C16Rows == ViolIn({"RowsOnlyForExit0"})
+C16WindowsAreReal == ~(abortPc \in KnownAbortWindows /\ pc = "done" /\ "AllLiveKilled" \in m.viol)
 
 (* implementation invariants the mechanisms of C09 / C04 rest on *)
 PipeMatchesList == pipe = Len(rcs)
